@@ -410,6 +410,21 @@ func (r *runner) resolveRef(op *Op) (string, bool) {
 }
 
 func (r *runner) buildBody(op *Op, res *OpResult) []byte {
+	if op.Corrupt != "" {
+		// an attempt the API cannot decode reports nothing: the consumer's own bookkeeping of
+		// what it has left of its grants is the same afterwards
+		r.mu.Lock()
+		saved := map[string]int32{}
+		for k, v := range r.lastGrant {
+			saved[k] = v
+		}
+		r.mu.Unlock()
+		defer func() {
+			r.mu.Lock()
+			r.lastGrant = saved
+			r.mu.Unlock()
+		}()
+	}
 	m := map[string]interface{}{}
 	if op.Supi != "" {
 		m["subscriberIdentifier"] = op.Supi
@@ -529,6 +544,8 @@ func (r *runner) buildBody(op *Op, res *OpResult) []byte {
 		m["invocationTimeStamp"] = 1234567890
 	case "muu-object":
 		m["multipleUnitUsage"] = map[string]interface{}{"ratingGroup": 1}
+	case "no-consumer":
+		delete(m, "nfConsumerIdentification") // mandatory member missing
 	}
 	b, _ := json.Marshal(m)
 	return b
@@ -637,7 +654,16 @@ func (r *runner) execOp(t *rt.Task, op *Op) *OpResult {
 	// the reference may contain anything (it is derived from request members): put the path
 	// into the URL structure, as a client that escapes it properly would
 	req := httptest.NewRequest(method, "http://127.0.0.113:8000/", bytes.NewReader(body))
+	// The request target is what an HTTP client makes of the text it was given (for updates and
+	// releases: the tail of the Location header, escaped or not) and what the server parses back
+	// from the request line; text no client could put on the wire falls back to a literal path.
 	req.URL = &url.URL{Scheme: "http", Host: "127.0.0.113:8000", Path: path}
+	if cu, err := url.Parse("http://127.0.0.113:8000" + path); err == nil && cu.Host == "127.0.0.113:8000" {
+		if su, err := url.ParseRequestURI(cu.RequestURI()); err == nil {
+			su.Scheme, su.Host = "http", "127.0.0.113:8000"
+			req.URL = su
+		}
+	}
 	req.RequestURI = req.URL.RequestURI()
 	if body != nil {
 		req.Header.Set("Content-Type", "application/json")
